@@ -67,7 +67,7 @@ def raw_layer(tier, seed, ev, rep):
 
 BK_INV = ("NoDuplicateRecord", "KeyLenOK", "ListedIsReadable", "ListedIsPut", "SessionSeesAll", "ClosedWhenIdle")
 BK_PROPS = ("FailedOpIsNoOp", "FirstValueStays", "HeadersPreserved", "RecordsImmutable", "InsertOnly")
-BK_ACTIONS = ("Make", "Begin", "CPut", "CGet", "End", "CFlush")
+BK_ACTIONS = ("Make", "Begin", "CPut", "CGet", "EndAs", "CFlush")
 BUFS = {"BufM1": -1, "Buf0": 0, "BufS": 6, "BufL": 100000}
 
 
